@@ -129,9 +129,12 @@ def run_scenarios(ck, scenarios, tag, nproc=8, timeout=1500):
 
 # ------------------------------------------------------------------------------------------- normalisation
 
-def _frag_index(off, total, n):
-    bounds = [i * total // n for i in range(n)]
-    return bounds.index(off) + 1 if off in bounds else 0
+def _unit(pos, total):
+    """Byte position -> position in sixths of the body (the cut points of the proxy's 2- and 3-way splits)."""
+    table = {0: 0, total // 3: 2, total // 2: 3, 2 * total // 3: 4, total: 6}
+    if pos in table:
+        return table[pos]
+    return max(0, min(6, round(6 * pos / max(1, total))))
 
 
 def normalise(outcome):
@@ -184,7 +187,7 @@ def normalise(outcome):
                 i += 1
                 continue
             t = HS_NAME.get(e["type"], "HS?")
-            fi, nf, bad, rw, inj = 0, 1, False, "", ""
+            lo, hi, bad, rw, inj = 0, 6, False, "", ""
             ms = e["mseq"]
             oms = ms
             acc = e
@@ -199,14 +202,11 @@ def normalise(outcome):
                     disp = "acc"
                     dtls.pop(j)
             if e["flen"] != e["total"]:
-                # find the proxy's split of this message (by type and original message_seq)
-                cands = [(k, n) for k, n in splits.items() if k[0] == d_in and k[1] == t]
-                n = 0
-                for k, nn in cands:
-                    if k[2] == ms or len(cands) == 1:
-                        n, oms = nn, k[2]
-                nf = n if n else max(2, -(-e["total"] // max(1, e["flen"])))
-                fi = _frag_index(e["off"], e["total"], nf) if n else e["off"] // max(1, e["flen"]) + 1
+                lo, hi = _unit(e["off"], e["total"]), _unit(e["off"] + e["flen"], e["total"])
+                # the message_seq the sender gave it (differs only after an adversary's omit)
+                cands = [k for k in splits if k[0] == d_in and k[1] == t]
+                if len(cands) == 1:
+                    oms = cands[0][2]
             if disp == "acc":
                 key = (d_in, acc["bh"])
                 if key in orig:
@@ -227,7 +227,7 @@ def normalise(outcome):
             if rw.startswith("inj_"):
                 inj, rw = rw, ""
                 bad = disp == "acc"      # bytes of the adversary's own making (the model marks them the same way)
-            out.append({"ev": "hs", "inst": inst, "t": t, "ms": ms, "oms": oms, "disp": disp, "fi": fi, "nf": nf,
+            out.append({"ev": "hs", "inst": inst, "t": t, "ms": ms, "oms": oms, "disp": disp, "lo": lo, "hi": hi,
                         "bad": bad, "rw": rw, "inj": inj, "seq": e["seq"]})
         elif ev == "flight":
             out.append({"ev": "flight", "inst": inst, "msgs": list(e["msgs"]),
